@@ -14,6 +14,7 @@
 package hx
 
 import (
+	"bytes"
 	"crypto/sha256"
 	"encoding/binary"
 	"encoding/hex"
@@ -466,4 +467,39 @@ func (p *PlainReader) Read(b []byte) (int, error) {
 	n, err := p.R.Read(b)
 	p.Taken += n
 	return n, err
+}
+
+// opaqueReaderAt offers ReadAt and nothing else.
+type opaqueReaderAt struct{ r io.ReaderAt }
+
+func (o opaqueReaderAt) ReadAt(p []byte, off int64) (int, error) { return o.r.ReadAt(p, off) }
+
+// ReaderAtKinds is the number of variants ReaderAtFor knows.
+const ReaderAtKinds = 7
+
+// ReaderAtFor returns the image behind one of several io.ReaderAt implementations a caller may legitimately hand
+// to a positional-read API: what is read at an offset is the same for all of them, whatever else the value can do
+// (report a length, remember a sequential position) and whatever happened to it before.
+func ReaderAtFor(img []byte, variant int) (io.ReaderAt, string) {
+	switch ((variant % ReaderAtKinds) + ReaderAtKinds) % ReaderAtKinds {
+	case 1:
+		r := bytes.NewReader(img)
+		io.CopyN(io.Discard, r, 2) // the caller looked at the magic first
+		return r, "bytes.Reader after 2 bytes were read sequentially"
+	case 2:
+		r := bytes.NewReader(img)
+		io.Copy(io.Discard, r) // the caller hashed the whole file first
+		return r, "bytes.Reader read to the end"
+	case 3:
+		return strings.NewReader(string(img)), "strings.Reader"
+	case 4:
+		return io.NewSectionReader(bytes.NewReader(img), 0, int64(len(img))), "io.SectionReader"
+	case 5:
+		// the image embedded in a larger file
+		buf := append(append([]byte("prefix bytes of a container file"), img...), []byte("and what follows the image")...)
+		return io.NewSectionReader(bytes.NewReader(buf), int64(len("prefix bytes of a container file")), int64(len(img))), "io.SectionReader into a larger file"
+	case 6:
+		return opaqueReaderAt{bytes.NewReader(img)}, "ReadAt only"
+	}
+	return bytes.NewReader(img), "bytes.Reader"
 }
